@@ -2,8 +2,8 @@
    Proofs: Proofs/DecimalProofs.v, Proofs/DurationProofs.v, Proofs/DatetimeProofs.v, Proofs/IPProofs.v. *)
 From Coq Require Import ZArith List Bool Lia.
 Import ListNotations.
-From Cedar Require Import Base.Int64 Lang.Value Impl.Text Impl.Decimal Impl.Duration Impl.Datetime Impl.IPAddr Impl.IPPrint
-  Proofs.DecimalProofs Proofs.DurationProofs Proofs.DatetimeProofs Proofs.IPProofs.
+From Cedar Require Import Base.Int64 Base.Utf8Enc Lang.Value Impl.Text Impl.Decimal Impl.Duration Impl.Datetime Impl.IPAddr Impl.IPPrint Impl.Quote Impl.UidText
+  Proofs.DecimalProofs Proofs.DurationProofs Proofs.DatetimeProofs Proofs.IPProofs Proofs.QuoteProofs Proofs.UidTextProofs.
 Local Open Scope Z_scope.
 
 (* ---- decimal ---- *)
@@ -69,6 +69,21 @@ Proof. exact mapped_never_roundtrips. Qed.
 Theorem C12_ipaddr_printed_plain : forall v6 a p, Forall (fun c => 32 <= c < 127 /\ c <> 34 /\ c <> 92) (print_ip v6 a p).
 Proof. exact print_ip_plain_all. Qed.
 
+(* ---- entity uids outside policies: Impl/UidText.v print_uid (EntityUID.String / MarshalCedar / MarshalBinary) and parse_uid
+   (EntityUID.UnmarshalCedar / UnmarshalBinary, a parser of its own), tied by the uidparse correspondence.  The printed form reads back for
+   every non-empty type that does not contain the three bytes colon colon double-quote and every id that is valid UTF-8 - for every Unicode
+   table the escaper may use; the two conditions on the type cannot be dropped (UidTextProofs.v parse_uid_needs_hyp, parse_uid_empty_type) *)
+Theorem C12_uid_text_roundtrip : forall is_printable is_gext (u : uid),
+  fst u <> [] -> index_of uid_sep (fst u) = None -> nonneg (snd u) -> valid_utf8 (snd u) = true ->
+  parse_uid (print_uid is_printable is_gext u) = Some u.
+Proof. exact parse_print_uid. Qed.
+(* exactly what the uid parser accepts *)
+Theorem C12_uid_text_accepted : forall s t i, parse_uid s = Some (t, i) <->
+  (t <> [] /\ index_of uid_sep t = None /\ exists q, s = t ++ [58; 58] ++ [34] ++ q ++ [34] /\ exists r, unquote q false = Some (i, r)).
+Proof. exact parse_uid_iff. Qed.
+
+Print Assumptions C12_uid_text_roundtrip.
+Print Assumptions C12_uid_text_accepted.
 Print Assumptions C12_ipaddr_roundtrip.
 Print Assumptions C12_ipaddr_roundtrip_exact.
 Print Assumptions C12_ipaddr_mapped_refuted.
